@@ -310,17 +310,26 @@ func vtC14Gen(r *rand.Rand, i int) (string, []int64) {
 	default:
 		ratio = 101 + r.Int63n(400) // the realistic range 1.01 .. 5.00
 	}
-	// an earlier update of the same rule: usually none; otherwise a neighbouring two-decimal
-	// value (the 0.01 hysteresis of Rule.UpdateCPUNormalizationRatio), any value, or no/invalid annotation
+	// an earlier update of the same rule: usually none; otherwise any value at least 0.02 away
+	// from the current one, the same value, or no/invalid annotation. Neighbouring two-decimal
+	// values are NOT generated: the rule's 0.01 hysteresis (ratioDiffEpsilon, a float64
+	// comparison) is outside the property's quantifier, so the hooks always run with the ratio
+	// the node advertises (Codec.input_guard, theorem c14_rule_follows_node).
 	prev := int64(-1)
 	if ratio > 0 {
-		switch r.Intn(12) {
+		switch r.Intn(10) {
 		case 0:
-			prev = ratio - 1
+			prev = ratio - 2 - int64(r.Intn(3))
+			if prev < 1 {
+				prev = ratio + 2
+			}
 		case 1:
-			prev = ratio + 1
+			prev = ratio + 2 + int64(r.Intn(3))
 		case 2:
 			prev = 1 + r.Int63n(600)
+			if d := prev - ratio; d == 1 || d == -1 {
+				prev = ratio
+			}
 		case 3:
 			prev = []int64{0, -2, -3, ratio}[r.Intn(4)]
 		}
